@@ -264,6 +264,26 @@ func runC13(tier string, seed int64, si, sn int, rep *monitor.Report, note func(
 		for i := 0; i < nn; i++ {
 			nodes = append(nodes, genNode(r, i))
 		}
+		// sometimes a node is filled exactly: running, scheduled pods requesting all of its allocatable cpu and memory
+		if nn > 0 && it%3 == 0 {
+			n := nodes[r.Intn(nn)]
+			cpu, mem := oracle.NodeAlloc(n)
+			if cpu.Sign() > 0 && mem.Sign() > 0 && cpu.IsInt64() && mem.IsInt64() {
+				parts := int64(1 + r.Intn(2))
+				for k := int64(0); k < parts; k++ {
+					c, m := cpu.Int64()/parts, mem.Int64()/parts
+					if k == parts-1 {
+						c, m = cpu.Int64()-c*(parts-1), mem.Int64()-m*(parts-1)
+					}
+					p := &v1.Pod{ObjectMeta: metav1.ObjectMeta{Name: fmt.Sprintf("full%d-%d", it, k)},
+						Spec: v1.PodSpec{NodeName: n.Name, Containers: []v1.Container{{Resources: v1.ResourceRequirements{Requests: v1.ResourceList{
+							v1.ResourceCPU: milliQ(c), v1.ResourceMemory: byteQ(m)}}}}},
+						Status: v1.PodStatus{Phase: v1.PodRunning, Conditions: []v1.PodCondition{{Type: v1.PodScheduled, Status: v1.ConditionTrue}}}}
+					pods = append(pods, p)
+					np++
+				}
+			}
+		}
 		evals++
 		// per pod
 		shape := ""
